@@ -5,7 +5,8 @@ Line-protocol driver for the DataCollector / batch_run models (C12, C13, C18-col
 One output line per input line.  Producer: harness/collect_common.py.
 
   scenario collect|batch        reset
-  classes p0 p1 …               class i derives from class p_i (< i) or, with `-`, directly from Agent;
+  classes p0 p1 …               class i derives from class p_i (< i), from several with `p+q+…` (multiple inheritance,
+                                bases in that order) or, with `-`, directly from Agent;
                                 ids ≥ the number of classes are types that are not Agent subclasses
   mrep attr a | mrep fn F | mrep part F | mrep meth F | mrep args k d G   model reporter (named m0, m1, … in order;
                                                                    fn = lambda / def, part = functools.partial)
@@ -19,6 +20,8 @@ One output line per input line.  Producer: harness/collect_common.py.
   start                          construct the DataCollector
   create ty a=v … | remove id | step | mset a v | mapp a x | mdel a | aset id a v | adel id a
   collect | row t ign|strict c=v … | stop k
+  reorder rev|rot                model.agents.shuffle(inplace=True) drawing the reversal / the rotation by one
+  reorder ida|idd | reorder ata|atd a     model.agents.sort(key, ascending, inplace=True) by unique_id / int attribute a
   mvars | mframe | aframe | tframe T | tab t            (observations)
   -- scenario batch
   init op ; op ; …   body op ; op ; …     op templates: `$p` in an int position = the int carried by
@@ -140,6 +143,12 @@ def parseOp : List String → Option Op
       let ign ← (if m = "ign" then some true else if m = "strict" then some false else none)
       pure (.row (← t.toNat?) (← ps.mapM parsePair) ign)
   | ["stop", k] => do pure (.stopAt (← k.toNat?))
+  | ["reorder", "rev"] => some (.reorder .rev)
+  | ["reorder", "rot"] => some (.reorder .rot)
+  | ["reorder", "ida"] => some (.reorder (.byId true))
+  | ["reorder", "idd"] => some (.reorder (.byId false))
+  | ["reorder", "ata", a] => do pure (.reorder (.byAttr (← a.toNat?) true))
+  | ["reorder", "atd", a] => do pure (.reorder (.byAttr (← a.toNat?) false))
   | _ => none
 
 def fmtErr : Err → String
@@ -156,19 +165,20 @@ def fmtCols (pre : String) (cols : List (Nat × List Val)) : List String :=
 
 /-! class hierarchy -/
 
-def isSubF (parents : List (Option Nat)) : Nat → Nat → Nat → Bool
+/-- `issubclass(c, T)`: `T` is `c` or reachable from `c` through the bases (a class may have several) -/
+def isSubF (parents : List (List Nat)) : Nat → Nat → Nat → Bool
   | 0, c, T => c == T
-  | f + 1, c, T => c == T || match parents[c]? with
-      | some (some p) => isSubF parents f p T
-      | _ => false
+  | f + 1, c, T => c == T || (parents[c]?.getD []).any fun p => isSubF parents f p T
 
-def parseParents (ws : List String) : Option (List (Option Nat)) :=
-  let rec go (i : Nat) : List String → Option (List (Option Nat))
+/-- `-` = derives directly from Agent; `p` or `p+q+…` = the bases, each an earlier class -/
+def parseParents (ws : List String) : Option (List (List Nat)) :=
+  let rec go (i : Nat) : List String → Option (List (List Nat))
     | [] => some []
     | w :: rest =>
-      if w = "-" then (go (i + 1) rest).map (none :: ·)
-      else match w.toNat? with
-        | some p => if p < i then (go (i + 1) rest).map (some p :: ·) else none
+      if w = "-" then (go (i + 1) rest).map ([] :: ·)
+      else match (w.splitOn "+").mapM String.toNat? with
+        | some ps => if ps ≠ [] && ps.all (· < i) && ps.eraseDups.length = ps.length
+            then (go (i + 1) rest).map (ps :: ·) else none
         | none => none
   go 0 ws
 
@@ -212,7 +222,7 @@ def templateOk (tmpl : List (List String)) : Bool :=
 structure DSt where
   mode : Nat                       -- 0 none, 1 collect, 2 batch
   started : Bool
-  parents : List (Option Nat)
+  parents : List (List Nat)
   mreps : List MRep
   areps : List ARep
   treps : List (Nat × List ARep)
